@@ -3,5 +3,5 @@
 P="$1"; shift
 cd /repo && { [ -z "$(git status --short)" ] || { echo "repo dirty: commit first"; exit 3; }; } && git apply "$P" || exit 2
 cd /verif
-for id in "$@"; do ./check "$id" quick | grep -E "VIOLATION|quick:|KNOWN" ; done
+export GOVC_SCRATCH_OUT=/var/tmp/govc-scratch; for id in "$@"; do ./check "$id" quick | grep -E "VIOLATION|quick:|KNOWN" ; done
 cd /repo && git checkout -- . && git status --short | grep -v '^??' 
